@@ -65,7 +65,7 @@ m = {
  'engines': [{'name': 'sa', 'path': '/verif/sa', 'serves_properties': [c['property_id'] for c in checks],
               'kind_free_text': 'repository-specific static analysis in pure Python stdlib: module index, statement CFG with atomic condition edges, CFG x automaton product, must-facts dataflow, condition normal forms, per-property rule modules; thorough tier adds whole-package index and a mutant/refactor sensitivity self-test'}],
  'checks': checks,
- 'notes': 'quick = all rules of the property, whole-package OWNER clauses included (1-3 s); thorough = the same rules with the whole package indexed (adds the record-owner clause of C09) plus the sensitivity self-test, which also replays the recorded seeded changes (must be detected) and refactorings (must stay silent) of the property as in-memory overlays; the self-test never changes the exit code. Known findings: /verif/known_findings.json (one open finding, F18, reported under C01 and C04: those checks print a KNOWN-FINDING line for it and exit 0; 32 fixed entries, which suppress nothing).',
+ 'notes': 'quick = all rules of the property, whole-package OWNER clauses included (1-3 s); thorough = the same rules with the whole package indexed (adds the record-owner clause of C09) plus the sensitivity self-test, which also replays the recorded seeded changes (must be detected) and refactorings (must stay silent) of the property as in-memory overlays; the self-test never changes the exit code. Known findings: /verif/known_findings.json (one open finding, F18, reported under C01 and C04: those checks print a KNOWN-FINDING line for it and exit 0; 33 fixed entries, which suppress nothing).',
  'not_applicable': na,
 }
 json.dump(m, open('/verif/MANIFEST.json', 'w'), indent=1)
